@@ -28,6 +28,7 @@ n = miss = 0
 for p in sorted(glob.glob(os.path.join(V, "seeded", "*", "meta.json"))):
     m = json.load(open(p)); n += 1
     det = ", ".join(m.get("detected_by") or []) or "MISSED"
+    if m.get("status") == "retired": det += " (retired)"
     if det == "MISSED": miss += 1
     rows.append(f"| {m['id']} | {m['property']} | {cell(m.get('summary') or m.get('breaks'), 200)} | {det} | {cell(m.get('detection_note'), 260)} |")
 t6 = f"{n} seeded changes, {n - miss} detected.\n\n" + "\n".join(rows) + "\n"
